@@ -284,33 +284,43 @@ INDICES `startHeight - fileStart .. endHeight - fileStart`; the loop starts at
 def appendNew (F : File) (cfg : Cfg) (startH endH : Nat) (mode : Mode) (r : Run) : Option Err × Run :=
   appendLoop F cfg (endH - F.bstart) mode (endH + 2) startH r
 
+/-- `openSources` + `validateSourcesCompatibility`, in source order -/
+def preChecks (F : File) : Option Err :=
+  if !F.openOk || F.blocks.isEmpty || F.filters.isEmpty then some .open
+  else if F.btyp ≠ 0 || F.ftyp ≠ 0 then some .type
+  else if F.bnet ≠ F.fnet || F.bnet ≠ 0 then some .net
+  else if F.bstart ≠ F.fstart then some .start
+  else if F.blocks.length ≠ F.filters.length then some .count
+  else none
+
+/-- `determineProcessingRegions`, `processDivergenceHeadersRegion`, `processNewHeadersRegion`
+for store tips `b` (block) and `f` (filter) -/
+def processRegions (F : File) (cfg : Cfg) (b f : Nat) (r : Run) : Option Err × Run :=
+  let (d, n) := regions F b f
+  let (e1, r1) :=
+    if d.exists then
+      if !verifyAt F r.st d.verify d.stop then (some Err.mismatch, r)
+      else appendNew F cfg d.start d.stop d.mode r
+    else (none, r)
+  match e1 with
+  | some e => (some e, r1)
+  | none =>
+    if n.exists then appendNew F cfg n.start n.stop n.mode r1
+    else (none, r1)
+
 /-- `headersImport.Import` -/
 def importRun (F : File) (cfg : Cfg) (st : Stores) : Option Err × Run :=
   let r : Run := { st := st }
-  if !F.openOk || F.blocks.isEmpty || F.filters.isEmpty then (some .open, r)
-  else if F.btyp ≠ 0 || F.ftyp ≠ 0 then (some .type, r)
-  else if F.bnet ≠ F.fnet || F.bnet ≠ 0 then (some .net, r)
-  else if F.bstart ≠ F.fstart then (some .start, r)
-  else if F.blocks.length ≠ F.filters.length then (some .count, r)
-  else
+  match preChecks F with
+  | some e => (some e, r)
+  | none =>
     match continuity F st with
     | some e => (some e, r)
     | none =>
       if !validateBlocks F.blocks cfg.bs then (some .invalid, r)
       else
         match bChainTip st, fChainTip st with
-        | some b, some f =>
-          let (d, n) := regions F b f
-          let (e1, r1) :=
-            if d.exists then
-              if !verifyAt F st d.verify d.stop then (some Err.mismatch, r)
-              else appendNew F cfg d.start d.stop d.mode r
-            else (none, r)
-          match e1 with
-          | some e => (some e, r1)
-          | none =>
-            if n.exists then appendNew F cfg n.start n.stop n.mode r1
-            else (none, r1)
+        | some b, some f => processRegions F cfg b f r
         | _, _ => (some .tip, r)
 
 def importStores (F : File) (cfg : Cfg) (st : Stores) : Option Err × Stores :=
